@@ -218,6 +218,27 @@ Theorem C15_eventual_reopen_poll : forall reopen c0 tail tr s, (c0 = None -> reo
 Proof. exact m_eventual_reopen_poll. Qed.
 Print Assumptions C15_eventual_reopen_poll.
 
+(* activity on OTHER entries of the followed file's directory (label LSibling: create / write / remove / rename of
+   app.log.1, old-app.log, a sub-directory ...) is irrelevant: inserted anywhere in a history it changes neither
+   the set of admissible observations (the specification automaton reaches the same state) nor the stream and
+   termination the model predicts; in the transition systems it only queues an event that the watcher goroutine
+   filters out (notify) / changes nothing at all (poll).  All theorems above quantify over runs containing
+   such steps. *)
+Theorem C15_siblings_irrelevant : forall reopen tr sp,
+  spec_run reopen sp (filter (fun l => negb (is_sibling l)) tr) = spec_run reopen sp tr.
+Proof. exact siblings_spec. Qed.
+Print Assumptions C15_siblings_irrelevant.
+Theorem C15_siblings_irrelevant_model : forall i,
+  model (mkcin (i_poll i) (i_reopen i) (i_tail i) (i_c0 i) (filter (fun l => negb (is_sibling l)) (i_hist i))) = model i.
+Proof. exact siblings_model. Qed.
+Theorem C15_sibling_step_notify : forall reopen rp s s', nstep reopen rp s LSibling s' ->
+  nenv s' = nenv s /\ nfd s' = nfd s /\ npcs s' = npcs s /\ sigW s' = sigW s /\ sigD s' = sigD s /\ ndel s' = ndel s /\
+  queue s' = queue s ++ [EvOther].
+Proof. exact sibling_step_notify. Qed.
+Theorem C15_sibling_step_poll : forall reopen s s', pstep reopen s LSibling s' -> s' = s.
+Proof. exact sibling_step_poll. Qed.
+Print Assumptions C15_sibling_step_notify.
+
 (* the boolean form evaluated by the correspondence holds for, and the functional projection [model] agrees
    with, every quiescent run (everything written has been delivered; ended iff plain follow and removed) *)
 Theorem C15_check_sound_notify : forall reopen c0 tail tr s,
